@@ -2363,6 +2363,9 @@ class TypeGuardExtension(Extension):
         yield from self.guarded_type.walk_values()
 
     def can_assign(self, value: Value, ctx: CanAssignContext) -> CanAssign:
+        # The bottom type is assignable to every other type.
+        if value is NO_RETURN_VALUE:
+            return {}
         can_assign_maps = []
         if isinstance(value, AnnotatedValue):
             for ext in value.get_metadata_of_type(Extension):
@@ -2402,6 +2405,9 @@ class TypeIsExtension(Extension):
         yield from self.guarded_type.walk_values()
 
     def can_assign(self, value: Value, ctx: CanAssignContext) -> CanAssign:
+        # The bottom type is assignable to every other type.
+        if value is NO_RETURN_VALUE:
+            return {}
         can_assign_maps = []
         if isinstance(value, AnnotatedValue):
             for ext in value.get_metadata_of_type(Extension):
